@@ -1567,13 +1567,47 @@ def prov_slash_marks(repo, tier="quick"):
                          reason="only the single-atom shortcut (len(graph) == 1) returns earlier"))
     # (d) the reader of the attribute uses the same name
     fa = repo.function("pysmiles_utils:annotate_ez_isomers_cgsmiles")
+
+    def attr_name(fi_, t, depth=0):
+        """the string an attribute-name term stands for: a literal, a module-level constant, or a parameter whose default and
+        whose argument at every call site in the package stand for one and the same string"""
+        if t is None or depth > 3:
+            return None
+        if t[0] == "const":
+            return t if isinstance(t[1], str) else None
+        if t[0] == "modconst":
+            mname, cname = t[1].split(":", 1)
+            try:
+                v = repo.module(mname).constants.get(cname)
+            except AnalysisError:
+                return None
+            return ("const", v.value) if isinstance(v, ast.Constant) and isinstance(v.value, str) else None
+        if t[0] == "param" and t[1] in fi_.params:
+            d = fi_.defaults().get(t[1])
+            if d is None:
+                return None
+            got = {attr_name(fi_, fi_.flow.canon(d, fi_.cfg.entry) if not isinstance(d, ast.Constant) else ("const", d.value), depth + 1)}
+            pos = list(fi_.positional_params).index(t[1]) if t[1] in fi_.positional_params else None
+            for other in repo.all_functions():
+                for c3, n3, _ in other.flow.calls_to(fi_.fq):
+                    ct3 = other.flow.canon(c3, n3)
+                    a3 = dict(ct3[4]).get(t[1])
+                    if a3 is None and pos is not None:
+                        off = 1 if fi_.cls and ct3[2][0] == "attr" else 0
+                        a3 = ct3[3][pos - off] if 0 <= pos - off < len(ct3[3]) else None
+                    if a3 is not None:
+                        got.add(attr_name(other, a3, depth + 1))
+            return got.pop() if len(got) == 1 else None
+        return None
+    if wname is not None and wname[0] != "const":
+        wname = attr_name(callee, wname) or wname
     names = []
     for c2, n2, _ in fa.flow.calls_to("networkx.get_node_attributes"):
         ct = fa.flow.canon(c2, n2)
         a = list(ct[3]) + [None] * 2
         name = a[1] if a[1] is not None else dict(ct[4]).get("name")
         if a[0] == ("param", fa.positional_params[0]):
-            names.append((name, c2))
+            names.append((attr_name(fa, name) or name, c2))
     if not names:
         # no get_node_attributes: the attribute may be read from the node dictionaries directly (attrs[name], name in attrs, .get(name))
         consts = [x for x in ast.walk(fa.node) if isinstance(x, ast.Constant) and isinstance(x.value, str)]
